@@ -45,6 +45,9 @@ SHAPES = {
     "unneeded_utilities": ([("Z1", "H1", "X", 60.0, ("cp", 2), 5.0), ("Z1", "C1", 50.0, 140.0, ("cp", 3), 5.0)],
                            [("HP", "Hot", 300.0), ("MP", "Hot", 200.0), ("XX", "Hot", 20.0), ("CW", "Cold", 15.0), ("YY", "Cold", 400.0)]),
     "value_with_unit": ([("Z1", "H1", "X", 60.0, ("cp", 2), 5.0), ("Z1", "C1", 50.0, 140.0, ("cp", 3), 5.0)], []),
+    # isothermal utilities whose supply and target temperatures are spelt differently (plain number vs value-with-unit, 'degC' vs 'C')
+    "mixed_spelling_utilities": ([("Z1", "H1", "X", 60.0, ("cp", 2), 5.0), ("Z1", "C1", 50.0, 140.0, ("cp", 3), 5.0)],
+                                 [("MP", "Hot", 200.0, "float/vu"), ("CW", "Cold", 15.0, "degC/C")]),
 }
 
 
@@ -67,8 +70,13 @@ def build(ctx, case):
         temps += [tsv, ttv]
         dts.append(dt)
     utils = []
-    for name, typ, lvl in utils_tpl:
-        utils.append({"name": name, "type": typ, "t_supply": ctx.const(lvl), "t_target": ctx.const(lvl), "dt_cont": ctx.const(5.0),
+    for name, typ, lvl, *spell in utils_tpl:
+        t_sup, t_tar = ctx.const(lvl), ctx.const(lvl)
+        if spell and spell[0] == "float/vu":
+            t_tar = {"value": ctx.const(lvl), "units": "degC"}
+        elif spell and spell[0] == "degC/C":
+            t_sup, t_tar = {"value": ctx.const(lvl), "units": "degC"}, {"value": ctx.const(lvl), "units": "C"}
+        utils.append({"name": name, "type": typ, "t_supply": t_sup, "t_target": t_tar, "dt_cont": ctx.const(5.0),
                       "htc": ctx.const(1.0), "price": ctx.const(40.0)})
         temps += [ctx.const(lvl)]
         dts.append(5.0)
@@ -79,7 +87,7 @@ def build(ctx, case):
             if t != "X":
                 hot = (ts if ts != "X" else 1e9) > (tt if tt != "X" else -1e9) if "X" not in (ts, tt) else None
                 pts += [t - dt, t + dt, t]
-    for name, typ, lvl in utils_tpl:
+    for name, typ, lvl, *_sp in utils_tpl:
         pts += [lvl - 5.0, lvl + 5.0, lvl - 5.1, lvl + 5.1, lvl - 4.9, lvl + 4.9]
     mydt = [dt for zone, name, ts, tt, qq, dt in streams_tpl if "X" in (ts, tt)][0]
     for p in pts:
@@ -143,7 +151,7 @@ def body(ctx, case):
 def cases(tier, seed):
     if tier == "quick":
         return [{"shape": "single_hot", "opts": [0, 1, 4]}, {"shape": "single_cold", "opts": [2, 3]}, {"shape": "isothermal_pair", "opts": [0]},
-                {"shape": "duplicate_names", "opts": [3]}, {"shape": "unneeded_utilities", "opts": [1]}, {"shape": "value_with_unit", "opts": [1]}]
+                {"shape": "duplicate_names", "opts": [3]}, {"shape": "unneeded_utilities", "opts": [1]}, {"shape": "value_with_unit", "opts": [1]}, {"shape": "mixed_spelling_utilities", "opts": [1]}]
     return [{"shape": s} for s in SHAPES]
 
 
